@@ -662,6 +662,15 @@ func (r *seqRun) step(i int, op seqOp) (rec trRec) {
 				rec.Ents = append(rec.Ents, r.entOf(e, true, e.Key))
 			}
 		case "SetMaximum":
+			if op.DK == "fit" {
+				// the maximum becomes exactly what the cache holds right now (the record carries the value actually used)
+				if c.IsWeighted() {
+					op.M = int64(c.WeightedSize())
+				} else {
+					op.M = int64(c.EstimatedSize())
+				}
+				rec.Op.M = op.M
+			}
 			c.SetMaximum(uint64(op.M))
 		case "GetMaximum":
 			m := c.GetMaximum()
